@@ -529,10 +529,20 @@ def C07(tier):
 
 def C08(tier):
     return dict(models=summary_models(tier)[:0] + [
-                    dict(module="Summary", name="MC_Summary", cfg=dict(constants=dict(MaxN=3, MaxR=2, MaxP=2, FixF5=True), invariants=["ShiftOK"]))],
-                stages=[num_stage("cov_pearson", "corr", (6000, 40000))],
+                    dict(module="Summary", name="MC_Summary", cfg=dict(constants=dict(MaxN=3, MaxR=2, MaxP=2, FixF5=True), invariants=["ShiftOK"])),
+                    # cov / pearson step by step (means, centring, product with the transpose, division) in exact arithmetic on every small
+                    # integer matrix: definition, symmetry, Cauchy-Schwarz, affine invariance; its behaviours are replayed into the code
+                    dict(module="Correlation", name="MC_Correlation",
+                         cfg=dict(constants=dict(MaxV=2, MaxN=q(tier, 3, 4), R=q(tier, 2, 1), Emit=False), invariants=["DoneOK", "InvarianceOK"])),
+                    dict(module="Correlation", name="MC_Correlation_emit", emit=True,
+                         cfg=dict(constants=dict(MaxV=2, MaxN=q(tier, 3, 4), R=1, Emit=True), invariants=["DoneOK", "EmitInv"]))],
+                stages=[dict(name="cov_model", family="num", trace="Trace_Num", profile="dev", cases_from=["MC_Correlation_emit"], chunk=20000),
+                        num_stage("cov_pearson", "corr", (6000, 40000))],
                 nontrivial=lambda o: len(o.get("rows", [])) >= 2, exhaustive=False,
-                rule="1..4 variables x 2..5 observations of small integers (offsets to 2^20), ddof in {0, 1/2, 1}, f32/f64, C/F/sliced/transposed inputs; "
+                rule="every matrix of 1..2 non-constant variables x 2..3 (thorough: 4) observations over {-1, 0, 1} with every ddof in {0, 1/2, .., n - 1/2} "
+                     "(behaviours of MC_Correlation_emit, f64 and f32, covariance exact at 2^-16 / 2^-12); random: "
+                     "1..4 variables x 2..5 observations of small integers (offsets to 2^20), 7..64 observations at the finest resolution that fits, "
+                     "ddof in {0, 1/2, 1} or any half-integer below n, f32/f64, C/F/sliced/transposed inputs; "
                      "cov against the exact rational, symmetry, diagonal; pearson by r^2 var_i var_j = cov_ij^2 with sign, diagonal 1, range; "
                      "invariance under scaling a variable by 2^s (|s| to 400) plus a shift, sign flip under negation",
                 assumptions=NUM_ASSUME, trusted=["quantisation in the harness"])
